@@ -303,7 +303,11 @@ def impl_main(payload):
                 sp.exp(-2 ** X0), sp.Integer(-2) ** X0, 2 ** (-(2 ** X0)), X0 ** -2.5, -(sp.Float(1e-5) ** X1),
                 # scientific-notation literals (a minus inside the literal) as power bases, factors, addends and exponents
                 sp.Float(2e-5) ** X0, sp.Float(3.5e-7) ** (X0 + X1) * X1, X0 - sp.Float(1e-5) ** X1, sp.Float(2e20) ** X0,
-                X0 * sp.Float(1e-7) + X1, X0 ** sp.Float(1e-5), sp.sin(sp.Float(4e-6) ** X1) / X0, X1 / sp.Float(2e-5) ** X0]
+                X0 * sp.Float(1e-7) + X1, X0 ** sp.Float(1e-5), sp.sin(sp.Float(4e-6) ** X1) / X0, X1 / sp.Float(2e-5) ** X0,
+                # integer literals at and beyond the range of the int64 command array: the largest that fits, and ones that must be
+                # rejected (or, if accepted, must keep their value - never wrap around)
+                X0 + sp.Integer(2 ** 63 - 1), sp.Integer(2 ** 63) * X0, X0 / sp.Integer(2 ** 64 - 1), X1 - sp.Integer(2 ** 63 + 12345),
+                sp.Integer(2 ** 64) * X0 + X1, X0 * sp.Integer(3 * 2 ** 62)]
     for t in range(payload["sympy_cases"] + len(scripted)):
         signal.alarm(2)
         try:
